@@ -121,12 +121,14 @@ func (c *clientConn) putChannel(ch chan<- result, sid uint32) bool {
 	select {
 	case <-c.closed:
 		// already closed with broadcastErr, return error on chan.
+		verifCC(c, 'P', sid, false, nil)
 		ch <- result{err: ErrSSHFxConnectionLost}
 		return false
 	default:
 	}
 
 	c.inflight[sid] = ch
+	verifCC(c, 'P', sid, true, nil)
 	return true
 }
 
@@ -136,6 +138,7 @@ func (c *clientConn) getChannel(sid uint32) (chan<- result, bool) {
 
 	ch, ok := c.inflight[sid]
 	delete(c.inflight, sid)
+	verifCC(c, 'g', sid, ok, nil)
 
 	return ch, ok
 }
@@ -163,6 +166,7 @@ func (c *clientConn) sendPacket(ctx context.Context, ch chan result, p idmarshal
 	case <-ctx.Done():
 		return 0, nil, ctx.Err()
 	case s := <-ch:
+		verifCC(c, 'T', p.id(), s.err == nil, s.err)
 		return s.typ, s.data, s.err
 	}
 }
@@ -178,6 +182,7 @@ func (c *clientConn) dispatchRequest(ch chan<- result, p idmarshaler) {
 	}
 
 	if err := c.conn.sendPacket(p); err != nil {
+		verifCC(c, 'S', sid, false, nil)
 		if ch, ok := c.getChannel(sid); ok {
 			ch <- result{err: err}
 		}
@@ -189,6 +194,7 @@ func (c *clientConn) broadcastErr(err error) {
 	c.Lock()
 	defer c.Unlock()
 
+	verifCC(c, 'B', 0, true, nil)
 	bcastRes := result{err: ErrSSHFxConnectionLost}
 	for sid, ch := range c.inflight {
 		ch <- bcastRes
